@@ -3,6 +3,8 @@
 # against (plus any extra properties given in tools/seed_extra.txt as "<dir> <Cxx> ..."), record the verdict, revert.
 # Output: docs/seed_matrix.txt   (lines: <dir> <property> caught|MISSED <first VIOLATION line>)
 cd /verif
+# the checks rewrite evidence/*.json: keep the clean-tree evidence and put it back afterwards
+rm -rf build/evidence.keep; cp -r evidence build/evidence.keep
 out=docs/seed_matrix.txt; : > $out
 for d in seeded/C*-m*; do
   id=$(basename $d); p=${id%%-*}
@@ -15,4 +17,5 @@ for d in seeded/C*-m*; do
   git -C /repo checkout -- .
 done
 ./check C08 --tier quick >/dev/null 2>&1
+rm -rf evidence; mv build/evidence.keep evidence
 echo done
